@@ -292,3 +292,28 @@ func ToV(v value.Type) ref.V {
 	}
 	return f
 }
+
+// FromV converts a reference value to a VM value.
+func FromV(v ref.V) value.Type {
+	switch x := v.(type) {
+	case ref.Nil:
+		return value.Nil
+	case int:
+		return value.NewInt(x)
+	case float64:
+		return value.NewFloat(x)
+	case bool:
+		return value.NewBool(x)
+	case string:
+		return value.NewString(x)
+	case ref.Arr:
+		a := make([]value.Type, 0, len(x))
+		for _, e := range x {
+			a = append(a, FromV(e))
+		}
+		return value.NewArray(a)
+	case *ref.Fn:
+		return value.NewFunction(0, nil, len(x.Params), len(x.Params))
+	}
+	panic(fmt.Sprintf("run.FromV: %T", v))
+}
